@@ -103,6 +103,27 @@ def c05_metric(ctx, shape, method, l1, mob):
     ctx.ensure("distance is the cost of the returned flux", abs(d12 - w.l1_dissipation(flux)) <= 1e-10 * max(1.0, d12))
 
 
+def _ident_cases(tier):
+    shapes = [(2, 2), (2, 2, 2)] if tier == "quick" else [(5,), (2, 2), (3, 4), (2, 2, 2), (3, 2, 2)]
+    return [dict(shape=s, method=m, mob=mob.name, form=f) for s in shapes for m in ("newton", "bregman") for mob in MOBILITY for f in ("full", "pressure")
+            if not (len(s) == 1 and mob.name in ("SUBCELL_BASED", "FACE_BASED"))]
+
+
+@ob("C05.identical", kind="B", cases=_ident_cases, funcs=FUNCS, samples=(1, 2), tol=1e-10,
+    cite="The computed Wasserstein distance ... is zero for identical distributions",
+    note="bounded: every mobility mode, both solvers, full and reduced linear systems; zero flux is the corner case of the mobility weights")
+def c05_identical(ctx, shape, method, mob, form):
+    rng = np.random.default_rng(ctx.rng.randrange(1 << 30))
+    grid, h = grid_of(shape)
+    for kind in ("dense", "sparse"):
+        m1, _ = images(shape, h, rng, kind)
+        for l1 in L1_MODES:
+            ctx.tick()
+            d0, info, w, flux = run(method, m1, m1.copy(), l1_mode=l1, mobility_mode=W.MobilityMode[mob], formulation=form, num_iter=8)
+            ctx.ensure(f"{kind}/{l1.name}: identical distributions: distance 0", abs(d0) <= 1e-10)
+            ctx.ensure(f"{kind}/{l1.name}: identical distributions: zero flux", float(np.max(np.abs(flux))) <= 1e-9)
+
+
 def _min_cases(tier):
     shapes = [(2, 2), (3, 2), (2, 2, 1)] if tier == "quick" else [(2, 2), (3, 2), (2, 3), (3, 3), (4, 2), (2, 2, 2), (2, 2, 1), (1, 2, 3)]
     return [dict(shape=s, l1=l.name) for s in shapes for l in L1_MODES]
@@ -313,3 +334,36 @@ def c05_emd(ctx, shape, h):
     ctx.ensure("scaling", abs(darsia.EMD()(mk(3 * a), mk(3 * b)) - 3 * d12) <= 1e-4 * max(1.0, 3 * d12))
     ctx.ensure("first-moment bound", d12 >= first_moment_displacement(mk(a), mk(b)) - 1e-5)
     ctx.ensure("identical: zero", abs(darsia.EMD()(mk(a), mk(a.copy()))) <= 1e-6)
+
+
+@ob("C05.lemmas", kind="L", cases=[{}], samples=(0, 0), funcs=[],
+    cite="never smaller than either the length of the displacement of the first moment of the mass or the true minimum of the discrete transport cost",
+    note="Lean 4 + Mathlib (lemmas/DarsiaLemmas.lean): quadrature_lower_bound (non-negative weights: norm of the weighted mean <= weighted mean of the norms), cost_ge_min; "
+         "the hypotheses 'positive weights exact on linears' are C15, 'the returned flux is feasible and the distance is its cost' are checked by C04 / C05.metric on every run")
+def c05_lemmas(ctx):
+    from vf.lean import check
+    res = check()
+    ctx.ensure("lemma file compiles with Lean 4 + Mathlib without errors, sorry, axioms or admits: " + res["output"][:300], res["ok"])
+    ctx.ensure("lemmas present", {"quadrature_lower_bound", "cost_ge_min"} <= set(res["theorems"]))
+
+
+@ob("C05.frontend_history", kind="B", cases=[dict(method="newton"), dict(method="bregman")], funcs=FUNCS, samples=(1, 2), tol=1e-9,
+    cite="the unified front-end returns what the back-end it dispatches to returns (also for the second and later calls in a process)",
+    note="bounded: successive front-end calls on images of the same voxel counts but other voxel sizes vs the back-end class on a fresh grid; module-level frame")
+def c05_frontend_history(ctx, method):
+    from vf import frame
+    rng = np.random.default_rng(ctx.rng.randrange(1 << 30))
+    before = frame.snapshot(["darsia.measure.wasserstein", "darsia.utils.grid"])
+    for shape in ((5,), (3, 4)):
+        for scale in (1.0, 3.0, 0.25):
+            grid, h = grid_of(shape, scale=scale)
+            m1, m2 = images(shape, h, rng)
+            opts = base_options(num_iter=15, return_info=False)
+            with warnings.catch_warnings():
+                warnings.simplefilter("ignore")
+                front = darsia.wasserstein_distance(m1, m2, method=method, options=dict(opts))
+                back = solver(method, darsia.Grid(tuple(shape), list(h)), opts)(m1, m2)
+            ctx.tick()
+            ctx.ensure(f"shape {shape}, voxel scale {scale}: front-end == back-end on a fresh grid of THIS image", abs(front - back) <= 1e-9 * max(1.0, abs(back)))
+            ctx.ensure(f"shape {shape}, voxel scale {scale}: first-moment bound", front >= first_moment_displacement(m1, m2) - 1e-9)
+    ctx.ensure("no module-level state written by the front-end (frame)", frame.diff(before, frame.snapshot(["darsia.measure.wasserstein", "darsia.utils.grid"])) == [])
